@@ -14,7 +14,8 @@ CFG = {'assumptions': ['f64 inputs cross the boundary as bit patterns and are de
                  'minimal entry is popped first'],
  'count': {'quick': 150000, 'thorough': 5000000},
  'lean_files': ['GeoModel/Simplify.lean', 'GeoModel/Ops/C09.lean', 'GeoProofs/Lemmas/C09Rdp.lean', 'GeoProofs/Lemmas/C09Vw.lean',
-                'GeoProofs/Lemmas/C09PHeap.lean', 'GeoProofs/Lemmas/C09PExit.lean'],
+                'GeoProofs/Lemmas/C09PHeap.lean', 'GeoProofs/Lemmas/C09PExit.lean',
+                'GeoProofs/Lemmas/C09PExitP.lean'],
  'rule': 'random LineString / MultiLineString / Polygon / MultiPolygon (0-28 vertices per component; random grid '
          'points, zig-zags, collinear runs with bumps, back-tracking walks, forced repeats, wide 2^20 coordinates; '
          'closed line strings; rings at the 4-coordinate limit, open rings closed by the constructor) x '
@@ -46,11 +47,13 @@ MANIFEST = {'note': 'Trusted: Lean 4.33 kernel (axioms propext, Classical.choice
          'from/rebuild establishes the heap order (every parent area <= its children), push and pop preserve it, '
          'from/push/pop only permute/add/remove entries (List.Perm), and pop returns an entry of minimal area '
          '(heap_from_inv, heap_push_inv, heap_pop_min). With it the exit invariant of simplify_vw is proved '
-         '(vw_exit_invariant, vw_exit_invariant_idx, vw_exit_invariant_simplify_idx): loop invariant every live vertex '
+         '(vw_exit_invariant, vw_exit_invariant_idx, vw_exit_invariant_simplify_idx, vw_exit_invariant_checker): loop invariant every live vertex '
          'with two proper neighbours has its current triangle in the queue, so at exit every three consecutive retained '
          'vertices span a triangle of exact area > eps; the Lean checker also evaluates it on every implementation '
-         'output. Not proved: the analogous exit statement for simplify_vw_preserve (its loop has further exits: '
-         'counter <= INITIAL_MIN, intersecting triangle with counter <= MIN_POINTS). '
+         'output. The analogous statement holds for simplify_vw_preserve (vwp_exit_invariant): when its output has more '
+         'than INITIAL_MIN and more than MIN_POINTS coordinates (otherwise the loop may have stopped on one of its two '
+         'size rules) every three consecutive retained vertices span a triangle of area > eps, entries demoted to -eps '
+         'included. '
          'The model (state-passing compute_rdp, the adjacency list, a '
          'mirrored BinaryHeap, the segment multiset standing for the R-tree) is compared exactly (vertex lists and '
          "index lists) with the real API on random inputs; the property clauses are also evaluated on the "
